@@ -16,7 +16,9 @@ import (
 	"testing"
 )
 
-func e2eStateString(a *Association) string {
+func e2eStateString(a *Association) string { return e2eStateStringDups(a, true) }
+
+func e2eStateStringDups(a *Association, withDups bool) string {
 	var sb strings.Builder
 	q := a.payloadQueue
 	fmt.Fprintf(&sb, "state %d %d %d %d %d", q.cumulativeTSN, q.tailTSN, q.chunkSize, q.maxTSNOffset, len(q.tsnBitmask))
@@ -30,9 +32,13 @@ func e2eStateString(a *Association) string {
 	for _, i := range idx {
 		fmt.Fprintf(&sb, " %d %d", i, q.tsnBitmask[i])
 	}
-	fmt.Fprintf(&sb, " %d", len(q.dupTSN))
-	for _, d := range q.dupTSN {
-		fmt.Fprintf(&sb, " %d", d)
+	if withDups {
+		fmt.Fprintf(&sb, " %d", len(q.dupTSN))
+		for _, d := range q.dupTSN {
+			fmt.Fprintf(&sb, " %d", d)
+		}
+	} else {
+		fmt.Fprintf(&sb, " 0")
 	}
 	ids := []int{}
 	for id := range a.streams {
